@@ -237,6 +237,12 @@ func (r *RolloutReconciler) reconcileRolloutTerminating(rollout *v1beta1.Rollout
 	if err != nil {
 		klog.Errorf("rollout(%s/%s) get workload failed: %s", rollout.Namespace, rollout.Name, err.Error())
 		return nil, err
+	} else if workload != nil && !workload.IsStatusConsistent {
+		// the finder returns an empty workload while its status lags behind its spec; finalising with it
+		// would skip restoring the stable service and removing the in-progressing annotation.
+		klog.Infof("rollout(%s/%s) workload status is inconsistent, then wait a moment", rollout.Namespace, rollout.Name)
+		expectedTime := time.Now().Add(time.Duration(defaultGracePeriodSeconds) * time.Second)
+		return &expectedTime, nil
 	}
 	c := &RolloutContext{Rollout: rollout, NewStatus: newStatus, Workload: workload, FinalizeReason: v1beta1.FinaliseReasonDelete}
 	done, err := r.doFinalising(c)
